@@ -200,6 +200,18 @@ def gen_encoders(g, tier, addr_mode, bufs=("exact+", "rand")):
         g.add("seteid %s req %s" % (cid, hb((a + 0x31) & 0xFF)), "setup")
         g.add("seteid %s resp %s" % (cid, hb((a + 0x57) & 0xFF)), "setup")
         ctxs.append(cid)
+    reps = 8 if tier == "thorough" else 3
+    for rep in range(reps - 1):
+        calls = calls + enc_calls(g, "quick")
+    if True:
+        # every stored EID value behind the response encoders
+        for e in (range(256) if tier == "thorough" else list(range(0, 256, 5)) + [0xFF, 0xFE, 0x7F, 0x80]):
+            cid = g.ctx(g.rb(), [], [(0, 1, 1)])
+            g.add("seteid %s resp %s" % (cid, hb(e)), "setup")
+            g.add("seteid %s req %s" % (cid, hb(e ^ 0xFF)), "setup")
+            for cc in (0, r.randrange(1, 6)):
+                g.add("enc %s %s respSetEid %s %d %s %s" % (cid, hb(g.rb()), hb(cc), r.randrange(2), hb(r.randrange(3)), hx(g.buf(20))), "eid-sweep:respSetEid")
+                g.add("enc %s %s respGetEid %s %s %s %d %s" % (cid, hb(g.rb()), hb(cc), hb(r.randrange(2)), hb(r.randrange(4)), r.randrange(2), hx(g.buf(20))), "eid-sweep:respGetEid")
     for (name, args) in calls:
         cid = r.choice(ctxs)
         dst = r.choice([0x34, 0x00, 0x7F, 0x80, 0xFF, r.randrange(256)])
@@ -703,7 +715,7 @@ def gen_for(prop, tier, seed):
             reqs = answerable_requests(g, len(vendors), eids, full=T)
             srcs = range(128) if T else list(range(0, 128, 9)) + [0x7F]
             for src7 in srcs:
-                for body, lab in (reqs if T else r.sample(reqs, min(len(reqs), 14))):
+                for body, lab in (r.sample(reqs, min(len(reqs), 120 if src7 % 16 else 400)) if T else r.sample(reqs, min(len(reqs), 14))):
                     for iid in (range(32) if (T and src7 % 16 == 0) else [r.randrange(32), 0]):
                         b = list(body)
                         b[0] = (b[0] & 0xE0) | iid | (r.choice([0, 0x40]) if r.random() < 0.2 else 0) | (0x20 if r.random() < 0.1 else 0)
